@@ -236,4 +236,6 @@ def run(F, rep, tier):
             rep.bad("C08-R6", "%s:%s" % (it["name"], h), "Formatter::%s uses `%s` on its text path: elements of the node's lists can be left out of the formatted text, which then re-parses to a different tree" % (it["name"], h),
                     "src/syntax/src/formatter.rs (expanded line %d)" % it["line"])
     rep.floor("C08-R6", "emitters scanned for element dropping", n6, 100)
+    from rules import c08_grammar
+    c08_grammar.run(F, rep, fm, reach)
     rep.analysed = {"formatter_methods": len(fm), "enum_matches": n1, "struct_emitters": n2, "operator_literals": n3, "child_text_inspections": n5}
